@@ -75,7 +75,8 @@ Lemma shrink_sim hs he m bins_c pre x post bins_a size p :
      else In (c_addr nx) (bin_nth bins_a (get_bin_index (c_sz nx)))) ->
   exists bins_c' m', c_shrink bins_c m (c_addr x) size p = HOk (bins_c', m', p) /\
     Rep he m' bins_c' (fst (fst (ha_shrink pre x post bins_a size p))) (snd (fst (ha_shrink pre x post bins_a size p))) /\
-    snd (ha_shrink pre x post bins_a size p) = p.
+    snd (ha_shrink pre x post bins_a size p) = p /\
+    hframe (hdrs2 he (pre ++ x :: post) (fst (fst (ha_shrink pre x post bins_a size p)))) m m'.
 Proof.
   intros HM Hux Hs0 Hsm Hfit Hnext. pose proof HM as [Hpos Htop Ht Hal Hmem Hgood Hrep].
   pose proof NODE_eq as HN. pose proof MIN_range as HMr.
@@ -90,7 +91,7 @@ Proof.
   unfold c_shrink, ha_shrink, wants_split. rewrite Hsx.
   rewrite (w64_small (size + (NODE + MIN_ALLOC_SIZE))) by lia.
   destruct ((c_sz x >? size) && (c_sz x >? size + (NODE + MIN_ALLOC_SIZE))) eqn:E.
-  2:{ eexists. eexists. split; [reflexivity|]. split; [exact Hrep | reflexivity]. }
+  2:{ eexists. eexists. split; [reflexivity|]. split; [exact Hrep | split; [reflexivity | apply hframe_refl]]. }
   apply andb_prop in E. destruct E as [_ E]. apply Z.gtb_lt in E.
   set (sp := a + NODE + size). set (rest := c_sz x - size - NODE). set (nx0 := a + NODE + c_sz x).
   set (m3 := mset (mset (mset m a size) sp rest) (sp + 8) a).
@@ -117,7 +118,8 @@ Proof.
   (* the simple case: the remainder is followed by a used chunk or the end node *)
   assert (Hsimple : is_used m3 nx0 = true ->
     exists bins_c' m', add_node bins_c (mset m3 (next_adj m3 sp + 8) sp) sp = (bins_c', m') /\
-      Rep he m' bins_c' (pre ++ mkchunk a size true :: mkchunk sp rest false :: post) (bins_add bins_a rest sp)).
+      Rep he m' bins_c' (pre ++ mkchunk a size true :: mkchunk sp rest false :: post) (bins_add bins_a rest sp) /\
+      hframe (hdrs2 he (pre ++ x :: post) (pre ++ mkchunk a size true :: mkchunk sp rest false :: post)) m m').
   { intros _. rewrite Enx0. set (m4 := mset m3 (nx0 + 8) sp).
     assert (HM4 : MI hs he m4 bins_c (pre ++ mkchunk a size (c_used x) :: mkchunk sp rest false :: post) bins_a).
     { apply (M4_split hs he m m4 bins_c pre x post bins_a size HM Hs0 Hsm ltac:(lia)); fold a; fold sp; fold nx0; fold rest;
@@ -126,15 +128,27 @@ Proof.
     rewrite Hux in HM4. set (x2 := mkchunk sp rest false) in *.
     assert (Hx2in : In x2 (pre ++ mkchunk a size true :: x2 :: post)) by (apply in_or_app; right; right; left; reflexivity).
     destruct (M2_push hs he m4 bins_c _ bins_a x2 HM4 Hx2in eq_refl Hspnot) as (bc1 & m5 & Hadd & HM5 & _).
-    cbn [c_addr c_sz x2] in Hadd, HM5. eexists. eexists. split; [exact Hadd | exact (mi_rep _ _ _ _ _ _ HM5)]. }
+    pose proof Hadd as Hadd0.
+    cbn [c_addr c_sz x2] in Hadd, HM5. eexists. eexists. split; [exact Hadd|]. split; [exact (mi_rep _ _ _ _ _ _ HM5)|].
+    set (S := hdrs2 he (pre ++ x :: post) (pre ++ mkchunk a size true :: x2 :: post)).
+    assert (Sa : S a) by (left; left; apply in_map; exact Hxin).
+    assert (Ssp : S sp) by (right; left; rewrite map_app; apply in_or_app; right; right; left; reflexivity).
+    assert (Snx : S nx0) by (left; unfold nx0; rewrite <- Hnx; apply next_is_hdr).
+    apply (hframe_trans S m m4).
+    - unfold m4, m3.
+      apply (hframe_step S nx0 8); [exact Snx | hk_solve | lia|].
+      apply (hframe_step S sp 8); [exact Ssp | hk_solve | lia|].
+      apply (hframe_step S sp 0); [exact Ssp | hk_solve | lia|].
+      apply (hframe_step S a 0); [exact Sa | hk_solve | lia|]. apply hframe_refl.
+    - apply (M2_hframe S hs he m4 bins_c _ bins_a x2 bc1 m5 HM4 Hx2in eq_refl Hspnot Hadd0). intros b0 Hb0. right. exact Hb0. }
   destruct post as [|nxc post'].
   - (* end node *)
     cbn [map hd] in Hnx. fold nx0 in Hnx.
     assert (Hu3 : is_used m3 nx0 = true).
     { destruct (rp_end _ _ _ _ _ Hrep) as [_ Eu]. rewrite <- Hnx. rewrite <- Eu.
       apply is_used_frame; apply Hm3; unfold sp in *; lia. }
-    rewrite Hu3. cbn [negb]. destruct (Hsimple Hu3) as (bc' & m' & Hadd & Hrep').
-    rewrite Hadd. eexists. eexists. split; [reflexivity|]. cbn [fst snd]. split; [exact Hrep' | reflexivity].
+    rewrite Hu3. cbn [negb]. destruct (Hsimple Hu3) as (bc' & m' & Hadd & Hrep' & Hfr').
+    rewrite Hadd. eexists. eexists. split; [reflexivity|]. cbn [fst snd]. split; [exact Hrep' | split; [reflexivity | exact Hfr']].
   - cbn [map hd] in Hnx. fold nx0 in Hnx. specialize (Hnext nxc post' eq_refl).
     assert (Hnin : In nxc (pre ++ x :: nxc :: post')) by (apply in_or_app; right; right; left; reflexivity).
     destruct (chunk_bounds hs he _ Ht Hal nxc Hnin) as (Hn1 & Hn2 & Hn3 & Hn4).
@@ -142,8 +156,8 @@ Proof.
     { apply is_used_frame; apply Hm3; unfold sp, nx0 in *; lia. }
     destruct (c_used nxc) eqn:Eunx.
     + assert (Hu3 : is_used m3 nx0 = true) by (rewrite Hfr3, <- Hnx; exact Hnext).
-      rewrite Hu3. cbn [negb]. destruct (Hsimple Hu3) as (bc' & m' & Hadd & Hrep').
-      rewrite Hadd. eexists. eexists. split; [reflexivity|]. cbn [fst snd]. split; [exact Hrep' | reflexivity].
+      rewrite Hu3. cbn [negb]. destruct (Hsimple Hu3) as (bc' & m' & Hadd & Hrep' & Hfr').
+      rewrite Hadd. eexists. eexists. split; [reflexivity|]. cbn [fst snd]. split; [exact Hrep' | split; [reflexivity | exact Hfr']].
     + (* the remainder absorbs the free chunk that follows *)
       pose proof Hnx as Enxa. rewrite Enxa in Hnext, Hn1, Hn3, Hn4 |- *. set (nxsz := c_sz nxc) in *.
       pose proof (get_bin_index_range nxsz) as Hbi. set (bi := get_bin_index nxsz) in *.
@@ -268,9 +282,48 @@ Proof.
           apply (remove_addr_in nx0 _ sp Hnd) in Hc. tauto.
         - rewrite bin_nth_upd_other in Hc by lia. exact Hc. }
       destruct (M2_push hs he m5 bc1 _ ba1 x2' HM5 Hx2'in eq_refl Hspnot1) as (bc2 & m6 & Hadd & HM6 & _).
+      pose proof Hadd as Hadd0.
       cbn [c_addr c_sz x2'] in Hadd, HM6. fold m5. rewrite Hadd.
-      eexists. eexists. split; [reflexivity|]. cbn [fst snd]. split; [|reflexivity].
-      pose proof (mi_rep _ _ _ _ _ _ HM6) as Hfin. rewrite <- app_assoc in Hfin. exact Hfin.
+      eexists. eexists. split; [reflexivity|]. cbn [fst snd]. split; [|split; [reflexivity|]].
+      { pose proof (mi_rep _ _ _ _ _ _ HM6) as Hfin. rewrite <- app_assoc in Hfin. exact Hfin. }
+      set (S := hdrs2 he (pre ++ x :: nxc :: post') (pre ++ x1 :: x2' :: post')).
+      assert (Sold : forall h, is_hdr he (pre ++ x :: nxc :: post') h -> S h) by (intros h Hh; left; exact Hh).
+      assert (Sa : S a) by (apply Sold; left; apply in_map; exact Hxin).
+      assert (Ssp : S sp) by (right; left; rewrite map_app; apply in_or_app; right; right; left; reflexivity).
+      assert (Snx0 : S nx0) by (apply Sold; left; rewrite <- Enxa; apply in_map; exact Hnin).
+      assert (Snx2 : S nx2).
+      { apply Sold. assert (Ht' : tiled hs ((pre ++ [x]) ++ nxc :: post') he) by (rewrite <- app_assoc; exact Ht).
+        pose proof (tiled_next _ _ _ _ _ Ht') as Hnn. rewrite Enxa in Hnn. fold nxsz in Hnn.
+        replace nx2 with (nx0 + NODE + nxsz) by (unfold nx2, rest', sp, rest, nx0; lia). rewrite <- Hnn.
+        pose proof (next_is_hdr he (pre ++ [x]) nxc post') as Hq. rewrite <- app_assoc in Hq. exact Hq. }
+      assert (Smid : forall h, is_hdr he (pre ++ x1 :: x2 :: nxc :: post') h -> S h).
+      { intros h Hh. unfold S, x1, x2, x2' in *. fold a in Hh. clear - Hh. unfold a in *. hdr_solve. }
+      apply (hframe_trans S m m5).
+      2:{ apply (M2_hframe S hs he m5 bc1 _ ba1 x2' bc2 m6 HM5 Hx2'in eq_refl Hspnot1 Hadd0).
+          intros h Hh. right. rewrite <- app_assoc in Hh. exact Hh. }
+      unfold m5.
+      apply (hframe_step S nx2 8); [exact Snx2 | hk_solve | lia|].
+      apply (hframe_step S sp 0); [exact Ssp | hk_solve | lia|].
+      apply (hframe_trans S m m3).
+      { unfold m3. apply (hframe_step S sp 8); [exact Ssp | hk_solve | lia|].
+        apply (hframe_step S sp 0); [exact Ssp | hk_solve | lia|].
+        apply (hframe_step S a 0); [exact Sa | hk_solve | lia|]. apply hframe_refl. }
+      intros w Hw. assert (Hw8 : w <> nx0 + 8) by (apply Hw; [exact Snx0 | hk_solve]).
+      transitivity (mget mUx w); [rewrite HUx; mm; reflexivity|].
+      transitivity (mget m3x w); [|unfold m3x; mm; reflexivity].
+      apply (M1_hframe S hs he m3x bins_c _ _ bi nx0 HM3x Hbi Hnext Smid). exact Hw.
+Qed.
+
+(* the writes of a realloc, as two header frames through an intermediate abstract state (the state
+   after the allocation when the block moves; the initial state otherwise) *)
+Definition two_frames (hs he : Z) (chunks : list chunk) (live : list blk) (ch' : list chunk) (m m' : mem) : Prop :=
+  exists L1 B1 m1 live1, raw_inv hs he L1 B1 live1 /\ incl live live1 /\
+    hframe (hdrs2 he chunks L1) m m1 /\ hframe (hdrs2 he L1 ch') m1 m'.
+
+Lemma two_frames_direct hs he chunks bins_a live ch' m m' :
+  raw_inv hs he chunks bins_a live -> hframe (hdrs2 he chunks ch') m m' -> two_frames hs he chunks live ch' m m'.
+Proof.
+  intros Hi Hf. exists chunks, bins_a, m, live. split; [exact Hi|]. split; [apply incl_refl|]. split; [apply hframe_refl | exact Hf].
 Qed.
 
 Lemma heap_realloc_raw_sim c hs he m bins_c chunks bins_a live i b n :
@@ -279,7 +332,7 @@ Lemma heap_realloc_raw_sim c hs he m bins_c chunks bins_a live i b n :
   exists bins_c' m' ch' ba' q,
     ha_realloc_raw chunks bins_a (b_addr b) n = HOk (ch', ba', q) /\
     heap_realloc_raw c bins_c m (b_addr b) n = HOk (bins_c', m', q) /\
-    Rep he m' bins_c' ch' ba'.
+    Rep he m' bins_c' ch' ba' /\ two_frames hs he chunks live ch' m m'.
 Proof.
   intros Hinv Hrep Hhs Hn Hn0.
   pose proof (MI_of_inv _ _ _ _ _ _ _ Hinv Hrep) as HM.
@@ -305,7 +358,8 @@ Proof.
   pose proof (Hflag x Hxin) as Hfx. fold a in Hfx. rewrite Hfx, Hu.
   assert (Ea0 : (a =? 0) = false) by (apply Z.eqb_neq; lia). rewrite Ea0.
   destruct (size_too_large n) eqn:Etl.
-  { eexists. eexists. eexists. eexists. eexists. split; [reflexivity|]. split; [reflexivity | exact Hrep]. }
+  { eexists. eexists. eexists. eexists. eexists. split; [reflexivity|]. split; [reflexivity|]. split; [exact Hrep|].
+    apply (two_frames_direct _ _ _ bins_a); [exact Hinv | apply hframe_refl]. }
   apply size_too_large_spec in Etl.
   destruct (aligned_size_spec n ltac:(lia)) as (Hs1 & Hs2 & Hs3).
   set (size := aligned_size n) in *.
@@ -333,16 +387,18 @@ Proof.
              end
     | HPanic => HPanic
     | HFuel => HFuel
-    end = HOk (bins_c', m', q) /\ Rep he m' bins_c' ch' ba').
-  { destruct (heap_alloc_raw_sim c hs he m bins_c _ bins_a live size Hinv Hrep Hhs ltac:(lia)) as (bc1 & m1 & Hca & Hrep1).
+    end = HOk (bins_c', m', q) /\ Rep he m' bins_c' ch' ba' /\ two_frames hs he (pre ++ x :: post) live ch' m m').
+  { destruct (heap_alloc_raw_sim c hs he m bins_c _ bins_a live size Hinv Hrep Hhs ltac:(lia)) as (bc1 & m1 & Hca & Hrep1 & Hfr1).
     destruct (ha_alloc_raw_ok hs he _ bins_a live size Hinv ltac:(lia)) as (ch & b1 & newp & Haa & Hcase).
     rewrite Haa in *. cbn [fst snd] in *. rewrite Hca.
     destruct Hcase as [(-> & -> & ->) | (Hnz1 & Hinv1)].
-    - cbn [Z.eqb]. eexists. eexists. eexists. eexists. eexists. split; [reflexivity|]. split; [reflexivity | exact Hrep1].
+    - cbn [Z.eqb]. eexists. eexists. eexists. eexists. eexists. split; [reflexivity|]. split; [reflexivity|]. split; [exact Hrep1|].
+      apply (two_frames_direct _ _ _ bins_a); [exact Hinv | exact Hfr1].
     - apply Z.eqb_neq in Hnz1. rewrite Hnz1.
       destruct (heap_dealloc_raw_sim hs he m1 bc1 ch b1 (mkblk newp size :: live) (S i) b Hinv1 Hrep1 Hn)
-        as (bc2 & m2 & ch2 & ba2 & Had & Hcd & Hrep2).
-      rewrite Had, Hcd. eexists. eexists. eexists. eexists. eexists. split; [reflexivity|]. split; [reflexivity | exact Hrep2]. }
+        as (bc2 & m2 & ch2 & ba2 & Had & Hcd & Hrep2 & Hfr2).
+      rewrite Had, Hcd. eexists. eexists. eexists. eexists. eexists. split; [reflexivity|]. split; [reflexivity|]. split; [exact Hrep2|].
+      exists ch, b1, m1, (mkblk newp size :: live). split; [exact Hinv1|]. split; [apply incl_tl; apply incl_refl|]. split; assumption. }
   destruct (size >? c_sz x) eqn:Eg.
   - destruct post as [|nx post'].
     { pose proof (tiled_next _ _ _ _ _ Ht) as Hnx. cbn [map hd] in Hnx. fold a in Hnx.
@@ -399,20 +455,35 @@ Proof.
           destruct (Hq2 z (or_introl eq_refl)) as (? & _). unfold nxa, nxsz in *. lia.
         + apply Hcomp; assumption. }
     destruct (shrink_sim hs he m3 bc1 pre x' post' ba1 size (b_addr b) HMg eq_refl ltac:(lia) Hs2 ltac:(cbn; unfold msz; lia) Htlg)
-      as (bc' & m' & Hsh & Hrep' & Hq).
+      as (bc' & m' & Hsh & Hrep' & Hq & Hfr').
     cbn [c_addr x'] in Hsh. unfold c_shrink in Hsh.
     exists bc', m', (fst (fst (ha_shrink pre x' post' ba1 size (b_addr b)))), (snd (fst (ha_shrink pre x' post' ba1 size (b_addr b)))), (b_addr b).
-    split; [|split; [|exact Hrep']].
+    split; [|split; [|split; [exact Hrep'|]]].
+    3:{ apply (two_frames_direct _ _ _ bins_a); [exact Hinv|].
+        set (S := hdrs2 he (pre ++ x :: nx :: post') (fst (fst (ha_shrink pre x' post' ba1 size (b_addr b))))).
+        assert (Sold : forall h, is_hdr he (pre ++ x :: nx :: post') h -> S h) by (intros h Hh; left; exact Hh).
+        assert (Sa : S a) by (apply Sold; left; apply in_map; exact Hxin).
+        assert (Snn : S (a + NODE + msz)).
+        { apply Sold. assert (Ht' : tiled hs ((pre ++ [x]) ++ nx :: post') he) by (rewrite <- app_assoc; exact Ht).
+          pose proof (tiled_next _ _ _ _ _ Ht') as Hnn. fold nxa in Hnn. fold nxsz in Hnn.
+          replace (a + NODE + msz) with (nxa + NODE + nxsz) by (unfold msz; lia). rewrite <- Hnn.
+          pose proof (next_is_hdr he (pre ++ [x]) nx post') as Hq'. rewrite <- app_assoc in Hq'. exact Hq'. }
+        apply (hframe_trans S m m3).
+        - unfold m3. apply (hframe_step S (a + NODE + msz) 8); [exact Snn | hk_solve | lia|].
+          apply (hframe_step S a 0); [exact Sa | hk_solve | lia|].
+          apply (M1_hframe S hs he m bins_c _ _ _ nxa HM Hbi Hnbin). exact Sold.
+        - eapply hframe_mono; [|exact Hfr']. intros h [Hh | Hh]; [|right; exact Hh].
+          apply Sold. unfold x' in Hh. clear - Hh. unfold a in *. hdr_solve. }
     + set (R := ha_shrink pre x' post' ba1 size (b_addr b)) in *.
       change (HOk R = HOk (fst (fst R), snd (fst R), b_addr b)).
       destruct R as [[c1 c2] c3]. cbn [fst snd] in *. subst c3. reflexivity.
     + fold m3. exact Hsh.
   - rewrite Z.gtb_ltb in Eg. apply Z.ltb_ge in Eg.
     destruct (shrink_sim hs he m bins_c pre x post bins_a size (b_addr b) HM Hu ltac:(lia) Hs2 Eg Htl0)
-      as (bc' & m' & Hsh & Hrep' & Hq).
+      as (bc' & m' & Hsh & Hrep' & Hq & Hfr').
     fold a in Hsh. unfold c_shrink in Hsh. rewrite Hsx in Hsh.
     exists bc', m', (fst (fst (ha_shrink pre x post bins_a size (b_addr b)))), (snd (fst (ha_shrink pre x post bins_a size (b_addr b)))), (b_addr b).
-    split; [|split; [|exact Hrep']].
+    split; [|split; [|split; [exact Hrep' | apply (two_frames_direct _ _ _ bins_a); [exact Hinv | exact Hfr']]]].
     + destruct (ha_shrink pre x post bins_a size (b_addr b)) as [[c1 c2] c3] eqn:Es. cbn [fst snd] in *. subst c3. reflexivity.
     + exact Hsh.
 Qed.
